@@ -155,4 +155,79 @@ ParseOK(text, radix, validUtf8, r) ==
   ELSE IF IsNumeral(text)
        THEN (IF ~IsD(r) THEN Bad("numeral-rejected") ELSE Chk(WOf(r.d) = ParseValue(text), "parsed-value"))
        ELSE Chk(IsErr(r), "non-numeral-accepted-or-panic")
+
+\* ---------------------------------------------------------------- C04: every rendering parses back
+HasExpMarker(t) == EPos(t) # 0
+TextFracDigits(t) == FracDigits(BodyOf(BaseOf(t)))
+\* value of a written out with its -scale zeros (scale 0); only for small negative scales
+Padded(a) == WMk(a.s, Shl(a.d, -ZToInt(a.z)), ZZero)
+\* common part: the output is a numeral, and the crate's own parser reads it back as the grammar says
+Renders(r) == "t" \in DOMAIN r /\ "rp" \in DOMAIN r
+ReadBack(t, rp) == IsNumeral(t) /\ IsD(rp) /\ WOf(rp.d) = ParseValue(t)
+\* how the re-parsed decimal must relate to the original, per renderer (a is wide)
+FmtRelOK(kind, a, t, c) ==
+  LET pv == ParseValue(t)
+      len == MaxI(1, Len(a.d))
+      small == ZSmall(a.z)
+      negScale == a.z.s < 0
+      tz == IF negScale THEN ZNeg(a.z) ELSE ZZero                         \* trailing zeros Display would write
+      lz == IF ZLe(ZOfInt(len), a.z) THEN ZSub(a.z, ZOfInt(len)) ELSE ZZero  \* zeros between point and first digit
+      useExp == ZLt(ZOfInt(c.lowThr), lz) \/ ZLt(ZOfInt(c.highThr), tz)
+  IN CASE kind = "display" ->
+            /\ HasExpMarker(t) = useExp                                       \* threshold law
+            /\ Len(t) <= len + c.lowThr + c.highThr + 28                      \* no long runs of zeros
+            /\ IF negScale /\ ~useExp THEN pv = Padded(a) ELSE pv = a         \* identical digits and scale outside the padded range
+       [] kind = "lowerexp" -> pv = a /\ HasExpMarker(t) /\ t[EPos(t)] = ce
+       [] kind = "upperexp" -> pv = a /\ HasExpMarker(t) /\ t[EPos(t)] = cE
+       [] kind = "sci" -> pv = a /\ HasExpMarker(t)
+       [] kind = "eng" -> WValEq(pv, a) /\ HasExpMarker(t) /\ NDivModSmall(ExpValue(ExpOf(t)).m, 3)[2] = 0
+       [] kind = "plain" -> ~HasExpMarker(t) /\ (IF negScale THEN small /\ pv = Padded(a) ELSE pv = a)
+       [] OTHER -> FALSE
+FmtOK(kind, a, r, c) ==
+  IF ~Renders(r) THEN Bad("outcome-kind")
+  ELSE IF ~ReadBack(r.t, r.rp) THEN Bad("output-does-not-read-back")
+  ELSE Chk(FmtRelOK(kind, a, r.t, c), "reparsed-decimal-differs")
+
+\* ---------------------------------------------------------------- C16: precision formatting and flags
+W(x) == WMk(x.s, x.d, ZOfInt(x.sc))
+\* {:.N}: exactly N digits after the point, value = the library's own rounding to scale N in the default mode
+FmtPrecRelOK(kind, a, N, t, c) ==
+  LET pv == ParseValue(t) IN
+  CASE kind = "display" ->
+         IF a.d = <<>> THEN pv.d = <<>> /\ (~HasExpMarker(t) => TextFracDigits(t) = N)
+         ELSE IF a.sc <= 0
+         THEN IF (-a.sc) + (IF N > 0 THEN N + 1 ELSE 0) <= c.maxPad
+              THEN ~HasExpMarker(t) /\ TextFracDigits(t) = N /\ pv = WMk(a.s, Shl(a.d, N - a.sc), ZOfInt(N))
+              ELSE WValEq(pv, W(a))                 \* printed unpadded, still the exact value
+         ELSE ~HasExpMarker(t) /\ TextFracDigits(t) = N /\ pv = W(RoundToScale(a, N, c.mode))
+    [] kind \in {"lowerexp", "upperexp"} ->
+         /\ HasExpMarker(t) /\ t[EPos(t)] = (IF kind = "lowerexp" THEN ce ELSE cE)
+         /\ TextFracDigits(t) = N
+         /\ IF a.d = <<>> THEN pv.d = <<>>
+            ELSE WValEq(pv, W(RoundToPrec(a, N + 1, c.mode))) /\ Len(pv.d) = N + 1
+    [] OTHER -> FALSE
+\* width / fill / alignment / '+' / '0': std's pad_integral around the flag-free numeral
+Rep(c, n) == [i \in 1..n |-> c]
+PadExpected(fl, plain) ==
+  LET neg == plain # <<>> /\ plain[1] = cMinus
+      body == IF neg THEN Tail(plain) ELSE plain
+      sg == IF neg THEN <<cMinus>> ELSE IF fl.plus THEN <<cPlus>> ELSE <<>>
+      core == sg \o body
+      pad == fl.w - Len(core)
+  IN IF pad <= 0 THEN core
+     ELSE IF fl.zero THEN sg \o Rep(c0, pad) \o body
+     ELSE IF fl.align = "<" THEN core \o Rep(fl.fill, pad)
+     ELSE IF fl.align = "^" THEN Rep(fl.fill, pad \div 2) \o core \o Rep(fl.fill, pad - (pad \div 2))
+     ELSE Rep(fl.fill, pad) \o core
+\* one formatting event: flag-free text judged by C04 / C16, flagged text by the padding rule
+FormatEventOK(e, a, aw, c) ==
+  LET r == e.r IN
+  IF ~Renders(r) THEN Bad("outcome-kind")
+  ELSE LET hasFlags == "flags" \in DOMAIN e
+           plain == IF hasFlags THEN r.plain ELSE r.t
+       IN IF hasFlags /\ r.t # PadExpected(e.flags, plain) THEN Bad("flags-alter-the-numeral")
+          ELSE IF ~IsNumeral(plain) THEN Bad("output-not-a-numeral")
+          ELSE IF ~hasFlags /\ ~ReadBack(r.t, r.rp) THEN Bad("output-does-not-read-back")
+          ELSE IF "N" \in DOMAIN e THEN Chk(FmtPrecRelOK(e.kind, a, e.N, plain, c), "precision-formatting")
+          ELSE Chk(FmtRelOK(e.kind, aw, plain, c), "reparsed-decimal-differs")
 =============================================================================
